@@ -2,14 +2,14 @@ SPECIFICATION SpecD
 CONSTANTS
  Writers = {"w1", "w2"}
  OpsPerWriter = 1
- Readers = {"r"}
+ Readers = {}
  ReaderOps = 1
  Cap = 2
  MaxBatch = 2
- MaxFaults = 0
- MaxToggles = 0
+ MaxFaults = 1
+ MaxToggles = 1
  DoClose = TRUE
  ReleaseThrottle = FALSE
- Deviations = {"DrainChecksQueueLenFirst"}
+ Deviations = {}
 INVARIANT Safety
 CHECK_DEADLOCK TRUE
